@@ -56,6 +56,29 @@ CHECKS.update({
                 "category and that operands are unchanged."),
 })
 
+def codec(text):
+    return dict(text=text, design='DESIGN.md section 9',
+                technique='TLA+ codec spec (bit-sequence arithmetic) + TLC model checking of round-trip theorems + TLC-enumerated values through every route + TLC trace validation')
+
+
+CHECKS.update({
+    'C02': codec("Model-based: Codec.tla defines every fixed dtype's canonical encoding on bit sequences (two's complement, byte "
+                 "reversal, IEEE narrowing/widening with RNE, digit maps). TLC model-checks Enc(Dec(p)) = p for every pattern up "
+                 "to 8-10 bits and all 65536 half patterns, then every enumerated (dtype, length, value) goes through every "
+                 "creation and reading route of the real library and TLC compares bits and values; seeded random values up to "
+                 "333 bits and arbitrary doubles (midpoints +-1ulp, subnormals, overflow) are judged the same way."),
+    'C10': codec("Model-based: exp-Golomb encoders/decoders on (sign, magnitude bits) of any size. TLC model-checks totality, "
+                 "canonicity (= prefix freeness) and refusal of every truncated codeword over all bit strings up to 12-14 bits; "
+                 "every integer in a window and every bit string up to 9 bits is run through the library's creation, "
+                 "whole-string and positional reading routes; seeded random integers to 2^200 and mixed codeword streams with "
+                 "truncations are validated event by event (value, pos advance, ReadError / InterpretError, pos unchanged)."),
+    'C15': codec("Model-based: range/size classification Fits/LenAllowed in Codec.tla, model-checked at the limits for every "
+                 "width; every (dtype, length incl. 0/negative/not-allowed, value from min-2 to max+2) through every creation "
+                 "route incl. property assignment onto an object holding other content; TLC requires CreationError and no change "
+                 "for every non-fitting combination and the exact length otherwise. Offset/length windows over byte sources are "
+                 "decided under C17."),
+})
+
 NOT_YET = {
 }
 
